@@ -627,6 +627,80 @@ def alias_factory(n):
     return AliasCycleSpec(n)
 
 
+PRELUDE = ['Int', 'Float', 'String', 'BitArray', 'Bool', 'Nil', 'List', 'Result']
+
+
+class ShadowSpec:
+    """type names in annotations: InferCtx::make_ty_from_typeref (real MIR) on the unqualified name N for every prelude type name N and one
+    other name.  Whether the current module's type scope knows a type called N (declared there, or imported with `import m.{type N}`) is
+    chosen by the solver - Resolver::resolve_type answers Some(Adt #7) or None accordingly.  A type the module knows under that name IS the
+    annotation (Gleam: module-level names shadow the prelude); the prelude meaning applies only when the scope has no such type."""
+
+    def make_interp(self):
+        from . import scopes
+        it = W.interp('ide', uc=True)
+        it.allow = [r'^ty::infer::<impl at [^>]*>::(new_ty_var|unify_var|unify_var_ty|unify|try_unify_var|intern)$', r'^ty::infer::<impl at [^>]*>::\w+::\{closure#\d+\}$',
+                    r'^ty::infer::<impl at [^>]*>::(?!infer_|finish|type_from_variant|make_type$|resolve_)\w+$', r'^ty::union_find::', r'^ty::<impl at [^>]*>::intern$']
+        install(it); scopes.install(it)
+        self.declared = z3.Bool('module_scope_has_a_type_of_that_name')
+        self.which = z3.BitVec('name', 8)
+        it.solver.add(z3.ULE(self.which, len(PRELUDE)))
+        spec = self
+
+        def resolve_type(it_, c, a):
+            spec.asked = True
+            if spec.dec is None:
+                spec.dec = it_.choose([(spec.declared, True), (z3.Not(spec.declared), False)])
+            if spec.dec:
+                return some(Agg('enum', 'ResolveResult', 'Adt', [Agg('struct', 'Adt', None, [Agg('struct', 'AdtId', None, [Agg('struct', 'InternId', None, [IntV(7, 32, 0)])])])]))
+            return none()
+        it.models['Resolver::resolve_type'] = resolve_type
+        it.models['<Arc as Deref>::deref'] = lambda it_, c, a: a[0]
+        it.models['SmolStr::as_str'] = lambda it_, c, a: models.deref(a[0]).fields[0]
+        return it
+
+    def run_path(self, it):
+        from . import scopes
+        self.dec = None; self.asked = False
+        k = it.choose([(self.which == i, i) for i in range(len(PRELUDE) + 1)])
+        name = (PRELUDE + ['Thing'])[k]
+        cell = [mk_table([])]
+        bctx, pi, ei = body_ctx()
+        ctx = infer_ctx({'body_ctx': bctx, 'idx': IntV(100, 32, 0), 'table': RefV(cell, 0)}, opaque=LazyV)
+        env = MapV()
+        tref = Agg('enum', 'def::module::TypeRef', 'Adt', [none(), scopes.smol(StrV(name)), VecV([])])
+        r = it.run_body(body(r'^ty::infer::<impl at [^>]*>::make_ty_from_typeref$'), [RefV([ctx], 0), tref, RefV([env], 0)])
+        v = r.fields[0].v
+        root, e = entry_of(it, cell, v)
+        kind = e.variant if e is not None else None
+        if not self.asked:
+            # the module scope was never consulted: is a declaration of that name possible?  (it is: the solver is free)
+            rr, _ = it.check(self.declared)
+            dec = None if rr == z3.sat else False
+        else:
+            dec = self.dec
+        bad = []
+        if dec is None:
+            bad.append('C09: the annotation `%s` is typed as the prelude type %s without asking the module scope: a type the module declares (or imports) under that name is ignored' % (name, kind))
+        elif dec and kind != 'Adt':
+            bad.append('C09: the module scope has a type called `%s`, but the annotation is typed as %s' % (name, kind))
+        elif not dec and name in PRELUDE and kind != name:
+            bad.append('C09: the annotation `%s` (no such type in the module scope) is typed as %s instead of the prelude type' % (name, kind))
+        rec = {'cls': 'module-type' if dec else ('prelude' if name in PRELUDE else 'unknown-name'), 'ok': True, 'sample': {'name': name, 'module_scope_has_it': bool(dec), 'typed_as': kind}}
+        if bad:
+            prog = ('pub type %s { Mine }\nfn f(v: %s) { let w = v  w }\n' % (name, name)) if name not in ('List', 'Result') else \
+                   ('pub type %s { Mine }\nfn f(v: %s) { let w = v  w }\n' % (name, name))
+            rec.update({'cls': 'violation', 'ok': False, 'why': bad, 'cex': {'name': name, 'module_scope_has_it': dec, 'program': prog, 'needle': 'w =', 'want': name, 'want_not': None}})
+        return rec
+
+    def on_panic(self, it, e):
+        return {'cls': 'panic-under-havoc', 'ok': True}
+
+
+def shadow_factory():
+    return ShadowSpec()
+
+
 class MoveSpec:
     """ide::signature_help::move_element(vec, from, to) for every vector length n and ARBITRARY usize indices: never panics,
     and the result is the input with the element at `from` moved to position `to` (or unchanged when an index is out of range)"""
